@@ -380,7 +380,7 @@ func ICMP6NeighborSolicitationMarshal(targetAddr netip.Addr, sourceLLA net.Hardw
 	copy(b[8:], targetAddr.AsSlice())
 
 	// single option: SourceLLA option
-	b[24] = 2 // Target option
+	b[24] = 1 // Source link-layer address option (RFC 4861 4.3)
 	b[25] = 1 // len 8 bytes
 	copy(b[26:], sourceLLA)
 	return b, nil
